@@ -25,7 +25,7 @@ MODES = ['debug', 'release']
 IMPORTS = 'Require Import V.Base.MachineInt V.Model.Descriptor V.Oracle.C17Oracle.'
 RULE = ('boundary-centred grid: initial term id in {MIN, MIN+1, -1, 0, 1, MAX-65536..MAX dense, random}, elapsed terms n in '
         '{0,1,2,3,65535,65536,2^31-2,2^31-1, random}, all 15 legal term lengths (bits 16..30), offsets {0,32,TL-32,TL,random aligned}; '
-        'kinds: pos (5 descriptor functions), hdr (Header::position on a crafted frame), rot (rotate_log on crafted meta data), rotl (a late rotate_log call on meta data already rotated k = 1..7 times: nothing may change; theorem for k = 1, model + oracle for all k), '
+        'kinds: pos (5 descriptor functions), hdr (Header::position on a crafted frame), rot (rotate_log on crafted meta data), rotl (a late rotate_log call on meta data already rotated k = 1..7 times: nothing may change; theorems C17_oracle_rotate_late and C17_oracle_rotate_late_k), '
         'pub / xpub (real Publication / ExclusivePublication offer on an in-memory log handed over at (n0, off0), n0 up to the last term 2^31-1), '
         'ppos (position() of both publication flavours with the tail counter at, before and beyond the end of the term); debug and release builds. '
         'A case is non-trivial when init + n leaves the i32 range (the term id has wrapped) or n >= 2^16; distinct = distinct argument tuples. '
